@@ -90,6 +90,7 @@ func main() {
 	)
 	flag.Parse()
 	simrt.WatchdogSeconds = 120
+	simrt.WatchdogDumpDir = os.Getenv("SIMRUN_DUMP_DIR")
 	if *list {
 		for p, ss := range scenarios {
 			for _, s := range ss {
